@@ -373,6 +373,14 @@ def _process_model_errors(
     return [error for _, error in model_errors]
 
 
+def _refers_to_itself(model_prop: ModelProperty, reference: oai.Reference, schemas: Schemas) -> bool:
+    """A reference whose last segment is the model's class name is the model itself, unless it resolves to another class
+    (a schema may be titled like a schema it composes and that is declared after it)."""
+    ref_path = parse_reference_path(reference.ref)
+    target = None if isinstance(ref_path, ParseError) else schemas.classes_by_reference.get(ref_path)
+    return not isinstance(target, ModelProperty) or target.class_info.name == model_prop.class_info.name
+
+
 def _process_models(*, schemas: Schemas, config: Config) -> Schemas:
     to_process = schemas.models_to_process
     still_making_progress = True
@@ -404,8 +412,10 @@ def _process_models(*, schemas: Schemas, config: Config) -> Schemas:
             schemas_or_err = process_model(model_prop, schemas=schemas, config=config)
             if isinstance(schemas_or_err, PropertyError):
                 schemas_or_err.header = f"\nUnable to process schema {model_prop.name}:"
-                if isinstance(schemas_or_err.data, oai.Reference) and schemas_or_err.data.ref.endswith(
-                    f"/{model_prop.class_info.name}"
+                if (
+                    isinstance(schemas_or_err.data, oai.Reference)
+                    and schemas_or_err.data.ref.endswith(f"/{model_prop.class_info.name}")
+                    and _refers_to_itself(model_prop, schemas_or_err.data, schemas)
                 ):
                     schemas_or_err.detail = schemas_or_err.detail or ""
                     schemas_or_err.detail += "\n\nRecursive allOf reference found"
